@@ -156,7 +156,7 @@ def check(run, ctx):
                     continue
                 sym = f"{f.qual.replace('src.linters.', '')}:{norm(c.func)}({norm(a)})"
                 culprit = [x.id for x in args if isinstance(x, ast.Name) and b in parts.get(x.id, ()) and x.id != b]
-                if culprit and not _line_param_becomes_record_line(ctx.repo, f, c, a):
+                if culprit and not _line_param_becomes_record_line(ctx.repo, f, c, a, [x for x in args if isinstance(x, ast.Name) and x.id in culprit]):
                     run.ok(B6, sym, f"`{culprit[0]}` is a part of `{b}`, but the callee does not store this line in a record's line field", nontrivial=False)
                     continue
                 # an annotated assignment starts with its target: node.target with node.lineno is the same line by construction
@@ -186,30 +186,46 @@ def check(run, ctx):
 NON_NODE_ATTRS = {"start_point", "end_point", "start_byte", "end_byte", "lineno", "end_lineno", "col_offset", "end_col_offset", "type", "text", "name", "id", "attr", "arg", "parent", "kind"}
 
 
-def _line_param_becomes_record_line(repo, f, call: ast.Call, line_arg: ast.expr) -> bool:
+def _line_param_becomes_record_line(repo, f, call: ast.Call, line_arg: ast.expr, part_args=()) -> bool:
     """Does the (same-module / same-class) callee put the parameter that receives line_arg straight into a
-    line=/line_number= field of something it constructs?  A constructor called with line= directly counts as well."""
-    for k in call.keywords:
-        if k.value is line_arg and k.arg in ("line", "line_number", "lineno"):
-            return True
+    line=/line_number= field of a record whose other fields are taken from the parameter that receives the part?
+    (A record about the parent - `Violation(line=func_line, message=f"{func.name} ...")` - is not at issue.)"""
     nm = call_name(call)
     cands = [g for g in repo.funcs.values() if g.module is f.module and g.name == nm and g.parent is None]
     for g in cands:
         params = [a.arg for a in g.node.args.posonlyargs + g.node.args.args]
         if g.cls is not None and params and params[0] in ("self", "cls"):
             params = params[1:]
-        pname = None
-        for i, a in enumerate(call.args):
-            if a is line_arg and i < len(params):
-                pname = params[i]
-        for k in call.keywords:
-            if k.value is line_arg:
-                pname = k.arg
-        if pname is None:
+        def param_of(arg):
+            for i, a in enumerate(call.args):
+                if a is arg and i < len(params):
+                    return params[i]
+            for k in call.keywords:
+                if k.value is arg:
+                    return k.arg
+            return None
+        pname = param_of(line_arg)
+        part_params = {param_of(x) for x in part_args} - {None}
+        if pname is None or not part_params:
             continue
+        # locals derived from the part parameter(s)
+        dep = set(part_params)
+        changed = True
+        while changed:
+            changed = False
+            for n in ast.walk(g.node):
+                if isinstance(n, ast.Assign) and any(isinstance(y, ast.Name) and y.id in dep for y in ast.walk(n.value)):
+                    for t in n.targets:
+                        for el in ast.walk(t):
+                            if isinstance(el, ast.Name) and el.id not in dep:
+                                dep.add(el.id)
+                                changed = True
         for n in ast.walk(g.node):
             if isinstance(n, ast.Call):
-                for k in n.keywords:
-                    if k.arg in ("line", "line_number", "lineno") and isinstance(k.value, ast.Name) and k.value.id == pname:
+                kws = {k.arg: k.value for k in n.keywords if k.arg}
+                lv = next((kws[x] for x in ("line", "line_number", "lineno") if x in kws), None)
+                if isinstance(lv, ast.Name) and lv.id == pname:
+                    others = [v for k_, v in kws.items() if k_ not in ("line", "line_number", "lineno")] + list(n.args)
+                    if any(isinstance(y, ast.Name) and y.id in dep for o in others for y in ast.walk(o)):
                         return True
     return False
